@@ -258,6 +258,11 @@ func (vm *VM) exec(f *frame, in instr) {
 		// "End finally, If no exception happen or be catched, vm will jump to
 		// the target instruction of ENDTRY/ENDTRY_L. Otherwise, vm will
 		// rethrow the exception to upper layer."
+		// JumpTable.EndFinally: "if (!TryStack.TryPop(out currentTry)) throw
+		// InvalidOperationException": the current context's innermost handler
+		// is removed FIRST, whatever its state, and only then the pending
+		// exception (if any) is thrown again - so a handler that is still in
+		// its TRY or CATCH state when ENDFINALLY executes never sees it.
 		if len(f.try) == 0 {
 			fault("ENDFINALLY without TRY")
 		}
